@@ -132,6 +132,8 @@ def worker_main(a):
                     mplan, mv, mres = plan, v, res
                 rec = dict(property=prop.pid, idx=idx, tag=tag, violation=dict(mv), plan=mplan, digest=mres.digest,
                            shape=prop.finding_shape(mplan, mv))
+                if sys.flags.optimize:
+                    rec["pyopt"] = sys.flags.optimize  # found in an interpreter started with -O (assert statements are not executed): replay likewise
                 if tag == "s":
                     # fall-back for violations that depend on state carried inside the worker's interpreter (object addresses,
                     # allocator state, ...): the unminimised plan together with the runs that preceded it in this worker
@@ -278,6 +280,8 @@ def parent_main(a):
         lo, hi = w * per, min(runs, (w + 1) * per)
         outp = os.path.join(tmpd, f"w{w}.json")
         cmd = base + ["--wid", str(w), "--lo", str(lo), "--hi", str(hi), "--out", outp]
+        if W >= 4 and w == W - 1:
+            cmd = cmd[:1] + ["-O"] + cmd[1:]  # one worker's share runs the way `python -O` / PYTHONOPTIMIZE=1 deployments do
         procs.append((f"w{w}", subprocess.Popen(cmd, env=env, cwd=VERIF, stdout=subprocess.PIPE, stderr=subprocess.STDOUT), outp))
     # determinism witness: fresh interpreter, other hash seed, reversed order, alone
     outp = os.path.join(tmpd, "det.json")
@@ -342,6 +346,7 @@ def parent_main(a):
     reported_known = set()
 
     def confirm(path, with_prefix=False):
+        # (a replay file found under -O re-executes itself under -O, see main())
         rp = subprocess.run([sys.executable, "-u", "-m", "ssesim", pid, "--replay", path] + (["--with-prefix"] if with_prefix else []),
                             env=env, cwd=VERIF, capture_output=True, timeout=1800)
         text = rp.stdout.decode(errors="replace")
@@ -430,7 +435,7 @@ def parent_main(a):
         coverage_matrix={k: v for k, v in sorted(agg["cover"].items())},
         inconclusive_runs=dict(agg["inconclusive"]),
         determinism=dict(seeds_compared_fresh_interpreter=det_checked, per_worker_repeats=3 * W),
-        workers=W, stopped_early_on_budget=agg["stopped_early"],
+        workers=W, workers_started_with_python_O=(1 if W >= 4 else 0), stopped_early_on_budget=agg["stopped_early"],
         real_vs_stub=prop.real_stub,
         known_findings_reobserved=sorted(str(k) for k in reported_known),
         repo=os.path.realpath(os.environ.get("VERIF_REPO", "/repo")),
@@ -491,5 +496,13 @@ def main(argv=None):
     if a.internal_worker:
         return worker_main(a)
     if a.replay:
+        try:
+            with open(a.replay) as f:
+                want_opt = bool(json.load(f).get("pyopt"))
+        except Exception:
+            want_opt = False
+        if want_opt and not sys.flags.optimize:
+            os.execve(sys.executable, [sys.executable, "-O", "-u", "-m", "ssesim"] + (argv if argv is not None else sys.argv[1:]),
+                      dict(os.environ, PYTHONPATH=os.path.join(VERIF, "sim")))
         return replay_main(a)
     return parent_main(a)
